@@ -154,3 +154,18 @@ claim('C05',
        'No allocation failure, no concurrency, table not modified during a walk. Model tied to code by differential execution, not by a C semantics.',
   technique='Rocq refinement proof (state relation + invariant, induction over histories), cursor-position invariant for getnext, decimal printer/parser round trip; constant translated from source; extracted-model/spec correspondence',
   design='5.5')
+claim('C08',
+  text='Machine-checked theorems (Coq 8.16, closed under the global context), for every name-hash function, all 16 combinations of UNIQUE/CASEINSENSITIVE/INSERTTOP/LOOKUPFORWARD '
+       'and every operation history: the statement-level model of qlisttbl.c (put/putstr/putint, get/getstr/getint, getmulti, remove, getnext walks with and without name filter that '
+       'removeobj any subset of the entries handed out, size, sort, clear, save, load) never dereferences a dangling node, and every observation and the entry sequence equal those of an '
+       'ideal ordered multimap on lists; the stored counter equals the number of entries (C08_refines). sort (bubble sort with last-exchange shortcut, exchanging payloads) yields a sorted, '
+       'stable permutation = the stable insertion sort (C08_sort). save then load into a fresh table reproduces the entries in order and returns their number for names that survive the text '
+       'format and arbitrary C-string values (C08_save_load, C08_parse_render); load returns the number of parsed entries and appends at the bottom (C08_load_count). '
+       'Two defects of the pinned code were repaired (load returned 0; load reversed the order under INSERTTOP). The model is tied to the code by running the extracted model and spec '
+       'against the implementation on the same histories (all 16 option sets, chain dumped forwards and verified backwards after every op, stored hashes and saved file bytes compared).',
+  note='Trusted: Coq kernel, extraction (ExtrOcamlBasic only), gcc, harness/h_listtbl.c, ocaml/d_listtbl.ml (incl. a hand-written murmur3_32 used only to print matching hashes), checks/c08.py. '
+       'C locale strcasecmp (ASCII folding). Histories use cursors only inside walks (cleared cursor, getnext*, removeobj of the entry just handed out); stale or hand-made cursors are outside the property. '
+       'getint / save(encode=false) on values without NUL would over-read: answered "bad" by model and spec and never executed. int n = tbl->num in sort (tables below 2^31 entries).',
+  technique='Rocq refinement proof (invariant + walk lemma over a zipper view of the chain, history induction); bubble-sort proof via adjacent-exchange relation and uniqueness of sorted stable rearrangements; '
+            'text round trip on the C16 URL codec lemmas; extracted model + extracted spec correspondence with delta-debugging shrinker',
+  design='5.8')
